@@ -1,7 +1,9 @@
 // Kani unit obj_field_cache (C03, C02, C16): ObjValue::get / get_idx -- the per-object field cache in front of the layer walk.
 // Contract: a field read through the same object and the same starting layer is computed at most once (value OR error is remembered),
 // different names / starting layers do not share an entry, and a re-entrant read of a field that is still being computed is an
-// "infinite recursion" error unless the object's assertions are running.
+// "infinite recursion" error; a field that the object's own assertions read while the first read triggers them is
+// still evaluated once (h_assertion_reads_field; this obligation was first written from the code -- "recompute while
+// asserting" -- and corrected to the property, see DESIGN 7.3).
 #![allow(unused, dead_code, static_mut_refs)]
 use std::cell::RefCell;
 
@@ -42,8 +44,23 @@ static mut CALLS: [[u32; 4]; 2] = [[0; 4]; 2];
 static mut REENTER: bool = false;
 static mut REENTRANT_RESULT: Option<Result<Option<Val>>> = None;
 static mut FAILS: bool = false;
+static mut ASSERT_READS: bool = false;   // the object's assertions read field 0 (through self) the first time they run
+static mut ASSERT_FAILS: bool = false;
+static mut ASSERT_RUNS: u32 = 0;
 impl ObjValue {
+    /// contract of run_assertions (unit obj_misc): runs the assertions unless they already ran / are running; while they
+    /// run, is_asserting is true; the script lets the assertion read field 0 of this same object
+    pub fn run_assertions(&self) -> Result<()> {
+        unsafe {
+            if ASSERTING { return Ok(()); }
+            ASSERT_RUNS += 1;
+            if ASSERT_READS { ASSERT_READS = false; ASSERTING = true; REENTRANT_RESULT = Some(self.get_idx(IStr(0), CoreIdx { idx: 3 })); ASSERTING = false; }
+            if ASSERT_FAILS { Err(Error(ErrorKind::Field(99))) } else { Ok(()) }
+        }
+    }
+    /// contract of get_idx_uncached: assertions first (as the real one does), then one layer walk (counted)
     fn get_idx_uncached(&self, key: IStr, core: CoreIdx) -> Result<Option<Val>> {
+        self.run_assertions()?;
         unsafe {
             CALLS[key.0 as usize][core.idx] += 1;
             if REENTER { REENTER = false; REENTRANT_RESULT = Some(self.get_idx(key, core)); }
@@ -82,20 +99,37 @@ mod harness {
     }
     #[kani::proof] #[kani::unwind(6)]
     fn h_reentrant_read() {
-        let asserting: bool = kani::any();
-        unsafe { ASSERTING = asserting; REENTER = true; }
+        // the field's own computation reads the field again (no assertion involved): a value that depends on itself
+        unsafe { ASSERTING = false; REENTER = true; }
         let o = obj();
         let r = o.get(IStr(0));
         unsafe {
             match REENTRANT_RESULT {
-                Some(inner) => if asserting { assert!(inner.is_ok() && CALLS[0][3] == 2, "obligation: while the object's assertions run, a re-entrant read recomputes instead of failing") }
-                               else { assert!(inner == Err(Error(InfiniteRecursionDetected)) && CALLS[0][3] == 1, "obligation: reading a field while it is being computed is reported as infinite recursion, not recomputed") },
+                Some(inner) => assert!(inner == Err(Error(InfiniteRecursionDetected)) && CALLS[0][3] == 1, "obligation: reading a field while it is being computed is reported as infinite recursion, not recomputed"),
                 None => panic!("harness: re-entrant read did not happen"),
             }
         }
-        assert!(r.is_ok(), "obligation: the outer read completes");
         let again = o.get(IStr(0));
         assert!(again == r, "obligation: the outcome of the outer computation is what stays cached");
-        kani::cover!(asserting); kani::cover!(!asserting);
+        unsafe { assert!(CALLS[0][3] == 1); }
+        kani::cover!(r.is_ok());
+    }
+    /// C03: `{ assert self.a == 1, a: <expensive> }.a` -- the object's assertions run on the first field read and read the
+    /// very field that is being read; the field is still evaluated at most once, and both reads see the same outcome
+    #[kani::proof] #[kani::unwind(6)]
+    fn h_assertion_reads_field() {
+        let fails: bool = kani::any(); let afails: bool = kani::any();
+        unsafe { FAILS = fails; ASSERT_READS = true; ASSERT_FAILS = afails; ASSERTING = false; }
+        let o = obj();
+        let r = o.get(IStr(0));
+        let r2 = o.get(IStr(0));
+        unsafe {
+            assert!(CALLS[0][3] <= 1, "obligation: a field that the object's own assertions also read is still evaluated at most once");
+            let inner = match REENTRANT_RESULT { Some(x) => x, None => panic!("harness: the assertion did not read the field") };
+            assert!(inner == if fails { Err(Error(ErrorKind::Field(0))) } else { Ok(Some(Val(31))) }, "obligation: the assertion's read sees the field's outcome");
+            if afails { assert!(r.is_err(), "obligation: a failing assertion fails the field read") } else { assert!(r == inner, "obligation: the read that triggered the assertions returns the outcome the assertions already saw") }
+        }
+        assert!(r2 == r, "obligation: later reads return the remembered outcome");
+        kani::cover!(fails); kani::cover!(!fails && !afails); kani::cover!(afails);
     }
 }
